@@ -62,6 +62,25 @@ def main():
             shutil.copyfile(os.path.join(src, 'demo_test.go'), os.path.join(d, 'demo_test.go.txt'))
             notes = open(os.path.join(src, 'notes.md')).read() if os.path.exists(os.path.join(src, 'notes.md')) else ''
             json.dump(dict(seed=name, breaks=pid, confirmed=conf, needs_to_manifest=notes[:3000]), open(os.path.join(d, 'meta.json'), 'w'), indent=1)
+        elif job.startswith('REF:'):
+            # a behaviour-preserving refactoring written by a sub-agent: /tmp/refout-<area>/m<k>/{patch.diff,notes.md}
+            _, area, k = job.split(':')
+            src = '/tmp/refout-%s/m%s' % (area, k)
+            name = 'harmless-%s%s' % (area, k)
+            d = os.path.join(ROOT, 'seeded', name)
+            if not os.path.exists(os.path.join(src, 'patch.diff')):
+                print(name, 'no patch', flush=True); continue
+            conf = {}
+            conf['patch_applies'] = sh(['git', '-C', CLONE, 'apply', os.path.join(src, 'patch.diff')]).returncode == 0
+            conf['compiles'] = sh(['go', 'build', './...'], cwd=CLONE).returncode == 0
+            conf['existing_tests_pass_with_change'] = sh(['go', 'test', '-vet=off', '-count=1', './...'], cwd=CLONE, timeout=1500).returncode == 0
+            reset()
+            if not all(conf.values()):
+                print(name, 'NOT CONFIRMED', conf, flush=True); continue
+            os.makedirs(d, exist_ok=True)
+            shutil.copyfile(os.path.join(src, 'patch.diff'), os.path.join(d, 'patch.diff'))
+            notes = open(os.path.join(src, 'notes.md')).read() if os.path.exists(os.path.join(src, 'notes.md')) else ''
+            json.dump(dict(seed=name, breaks='none', confirmed=conf, needs_to_manifest=notes[:3000]), open(os.path.join(d, 'meta.json'), 'w'), indent=1)
         else:
             name = job
         patch = os.path.join(ROOT, 'seeded', name, 'patch.diff')
